@@ -317,6 +317,11 @@ def run_b(case, parse_frames, pkt):
             n += 1
             if st == "hang":
                 fails.append({"kind": "parser_hang", "sig": {"bytes": data.hex()}})
+                if sum(1 for f in fails if f["kind"] == "parser_hang") >= 5:
+                    # every further hang costs a second: five (the shortest strings first) describe the finding, the rest
+                    # of this case is not executed
+                    return {"n": n, "fails": fails, "nontrivial_n": parsed, "outcomes": [str(o) for o in outcomes],
+                            "count": {"bytes_layer_stopped_after_hangs": 1}}
                 continue
             if st == "raise":
                 outcomes.add(type(res).__name__)
